@@ -682,3 +682,87 @@ def async_nested_stream(tag, seed, n, **genkw):
         if a != b:
             bad.append((c, a, b))
     return cases, bad, marks[0]
+
+
+# ------------------------------------------------------------------ unqueued machines whose callbacks trigger events
+def impl_hsm_reent(case):
+    """impl_hsm where a callback's actions are performed: model.trigger(event) from inside the callback (processed at
+    once on an unqueued machine), payload 2000 + 8 * position + k as in the re-entrant engines"""
+    world = World(case['env'], case['machine']['send'])
+    world.state_of = state_forest
+    cname = case.get('cls', 'HierarchicalMachine')
+    machine, model = build_hsm(case, world, flat.get_class(cname), extra_kwargs=flat.class_kwargs(cname))
+    world.model_ids[id(model)] = case.get('model', 0)
+    world.current_model = model
+
+    def perform(a):
+        if a[0] == 0:
+            tok = Token(2000 + 8 * world.cur_pos + world.cur_k)
+            model.trigger('e%d' % a[2], tok, k=tok)
+    world.perform = perform
+    init_cfg = world.state_of(model)
+    out = []
+    for e, a in case['history']:
+        tok = Token(a)
+        world.items = []
+        try:
+            r = model.trigger('e%d' % e, tok, k=tok)
+            res = [0, bool(r)]
+        except BaseException as ex:  # noqa
+            res = [1, classify_exc(ex)]
+        out.append([world.items, res, world.state_of(model)])
+    return [1, init_cfg, out]
+
+
+def _stale_scope_exn(obs):
+    """an outer transition whose declaring scope was left by an event triggered from one of its earlier callbacks
+    crashes in reduce(dict.get, scope, tree): AttributeError when the last scope element is gone, TypeError when an
+    intermediate one is - the model says AttributeError for both; TypeError ('other', code 9) is read as that"""
+    if not isinstance(obs, list) or obs[0] != 1:
+        return obs
+    def fix(x):
+        return [1, 0] if x == [9, 0] else x
+    out = []
+    for items, res, cfg in obs[2]:
+        items = [it[:5] + [[fix(x) for x in it[5]]] + it[6:] for it in items]
+        if res[0] == 1:
+            res = [1, fix(res[1])]
+        out.append([items, res, cfg])
+    return [1, obs[1], out]
+
+
+def reent_stream(tag, seed, n, **genkw):
+    """unqueued hierarchical machines whose callbacks (any stage: conditions, before, exit, enter, on_final, after,
+    finalize ...) trigger further events of the same model at 1-3 positions of the history; against HReent.v.
+    Returns (cases, disagreements, nested_calls)"""
+    import framework as F
+    cases = []
+    for i in range(n):
+        rng = random.Random('%s-%d-%d' % (tag, seed, i))
+        c = gen_case(rng, **genkw)
+        evs = sorted({e for e, _ in c['machine']['events']} | {e for _, d in all_defs(c['machine']) for e, _ in d['events']}) or [0]
+        bypos = {p: (r[0], r[1], []) for p, r in c['env']['bypos'].items()}
+        for _ in range(rng.randint(1, 3)):
+            p = rng.randint(0, 14)
+            ret = bypos.get(p, (rng.random() < 0.7, None, []))[0]
+            bypos[p] = (ret, None, [(0, 0, rng.choice(evs)) for _ in range(rng.randint(1, 2))])
+        c['env'] = dict(default=c['env']['default'], bypos=bypos, bycb={k: (r[0], r[1], []) for k, r in c['env']['bycb'].items()})
+        c['history'] = [(e, a) for (k, e, a) in c['history'] if e < 50]
+        c['cls'] = ['HierarchicalMachine', 'LockedHierarchicalMachine', 'HierarchicalGraphMachine'][i % 3]
+        c.pop('queued', None)
+        cases.append(c)
+    enc = [[enc_hmachine(c['machine']), enc_env(c['env']), 0, c['init'], [[e, a] for e, a in c['history']]] for c in cases]
+    mo = F.run_model(19, enc)
+    io = F.run_impl('hsm', 'impl_hsm_reent', cases)
+    bad = []
+    nested = 0
+    for c, m, i in zip(cases, mo, io):
+        hc = dict(c, history=[(0, e, a) for e, a in c['history']])
+        mm, ii = mask_handled(hc, m), mask_handled(hc, _stale_scope_exn(i))
+        if isinstance(mm, list) and mm[0] == 1:
+            nested += sum(1 for st in mm[2] for it in st[0] if it[4][1] >= 2000)
+            if any(st[1] == [1, [4, 99]] for st in mm[2]):
+                continue                  # out of fuel in the model (deeper than 12 levels): not compared
+        if mm != ii:
+            bad.append((c, mm, ii))
+    return cases, bad, nested
